@@ -29,14 +29,26 @@ theorem align_spec (n a : Int) (ha : 0 < a) (hn : 0 ≤ n) :
   have h1 : ¬ a ≤ 0 := by omega
   have h2 : ¬ n < 0 := by omega
   have h3 : ¬ a = 0 := by omega
-  refine ⟨(n + (a - 1)) / a * a, ?_, Int.dvd_mul_left _ _, ?_, ?_⟩
-  · simp [align, h1, h2, h3, pyFloorDiv, Int.fdiv_eq_ediv_of_nonneg _ (Int.le_of_lt ha)]
-  all_goals
-    have e := Int.emod_add_mul_ediv (n + (a-1)) a
-    have l := Int.emod_lt_of_pos (n + (a-1)) ha
-    have g := Int.emod_nonneg (n + (a-1)) (Int.ne_of_gt ha)
-    rw [Int.mul_comm] at e
-    omega
+  -- evaluate the translated body to *whatever* closed form the current source has …
+  obtain ⟨r, hr⟩ : ∃ r, align n a = .ok r := by simp [align, h1, h2, h3]
+  refine ⟨r, hr, ?_⟩
+  simp [align, h1, h2, h3, pyFloorDiv, Int.fdiv_eq_ediv_of_nonneg _ (Int.le_of_lt ha)] at hr
+  subst hr
+  -- … and reason about it through the division facts for the usual spellings of the numerator
+  have e := Int.emod_add_mul_ediv (n + (a-1)) a
+  have l := Int.emod_lt_of_pos (n + (a-1)) ha
+  have g := Int.emod_nonneg (n + (a-1)) (Int.ne_of_gt ha)
+  have e' := Int.emod_add_mul_ediv (n + a - 1) a
+  have l' := Int.emod_lt_of_pos (n + a - 1) ha
+  have g' := Int.emod_nonneg (n + a - 1) (Int.ne_of_gt ha)
+  rw [Int.mul_comm] at e e'
+  refine ⟨?_, ?_, ?_⟩
+  · first
+      | exact Int.dvd_mul_left _ _
+      | exact Int.dvd_mul_right _ _
+  all_goals first
+    | omega
+    | (rw [Int.mul_comm]; omega)
 
 /-- … which is the smallest such value. -/
 theorem align_least (n a m : Int) (ha : 0 < a) (hn : 0 ≤ n) (hm : a ∣ m) (hnm : n ≤ m) :
@@ -82,10 +94,8 @@ theorem swap16_invol (x : Int) (h0 : 0 ≤ x) (h1 : x ≤ 0xFFFF) :
 
 theorem sbAlign_spec (n : Int) (hn : 0 ≤ n) :
     ∃ r, sbAlign n = .ok r ∧ (16 : Int) ∣ r ∧ n ≤ r ∧ r < n + 16 := by
-  have h1 : ¬ n < 0 := by omega
-  refine ⟨(n + 15) / 16 * 16, ?_, Int.dvd_mul_left _ _, ?_, ?_⟩
-  · simp [sbAlign, align, h1, pyFloorDiv, Int.fdiv_eq_ediv_of_nonneg]
-  all_goals omega
+  obtain ⟨r, hr, hd, h1, h2⟩ := align_spec n 16 (by omega) hn
+  exact ⟨r, by simp [sbAlign, hr], hd, h1, h2⟩
 
 /-- `to_num_blocks` accepts exactly multiples of 16 and then returns the quotient. -/
 theorem sbToNumBlocks_spec (n : Int) :
